@@ -2,7 +2,7 @@
   oracle_c14 — line-protocol driver for the C14 models (HD wallets, BIP39, wallet key lists).
   Byte strings are hex, "-" = empty. A wallet `W` is six tokens: <pfx> <depth> <checksum> <idx> <chcode> <key>.
     sha512 <b> | hmac512 <key> <msg> | pbkdf2 <pw> <salt> | sha256 <b> | h160 <b>   -> ok <bytes>
-    pubpriv <k> <compr>                 -> ok <pub> | outside
+    pubpriv <k> <compr>                 -> ok <pub> | nil
     dnpriv <p> <s>                      -> ok <bytes>
     dnpub <pub> <secret>                -> ok <bytes> | outside
     child W <i>                         -> ok W <string> | panic | outside
@@ -79,7 +79,7 @@ def step (_ : Unit) (toks : List String) : Unit × String :=
     | some p, some s => ((), s!"ok {Hex.encode (pbkdf2Sha512 p s 2048 64)}") | _, _ => bad
   | ["pubpriv", k, c] => match Hex.decode k, bool? c with
     | some k, some c => match publicFromPrivate k c with
-      | some p => ((), s!"ok {Hex.encode p}") | none => ((), "outside")
+      | some p => ((), s!"ok {Hex.encode p}") | none => ((), "nil")
     | _, _ => bad
   | ["dnpriv", p, s] => match Hex.decode p, Hex.decode s with
     | some p, some s => ((), s!"ok {Hex.encode (deriveNextPrivate p s)}") | _, _ => bad
